@@ -355,14 +355,16 @@ def gen_stmt_callbacks(loader, check, replay_on=True):
         return isinstance(o, Obj) and o.cls is Seq and len(o.fields["effects"]) == len(effs) and all(a is b for a, b in zip(o.fields["effects"], effs))
 
     # ---- if / if-else / switch ---------------------------------------------------------------------
+    cond_cases = [("Variable", t_) for t_ in T8] + [("Register", (True, 64)), ("CompareOp", (True, 32)), ("Cast", (False, 64)), ("HybridTmp", (True, 64))]
     for form in ("if", "if-else", "switch"):
+      for ck, ct in (cond_cases if form != "switch" else cond_cases[:1]):
         for nthen in (1, 2):
-            inst = f"{form} then-statements={nthen}"
+            inst = f"{form} cond={ck}:{tname(ct)} then-statements={nthen}"
             check.instances_declared += 1
 
-            def setup(it, form=form, nthen=nthen):
+            def setup(it, form=form, nthen=nthen, ck=ck, ct=ct):
                 t = tkit.mk_transformer(it)
-                c = irkit.mk_operand(it, "Variable", (True, 32), "c")
+                c = irkit.mk_operand(it, ck, ct, "c")
                 then = [mk_effect(it, loader, "Assignment", f"t{i}") for i in range(nthen)]
                 els = [mk_effect(it, loader, "Assignment", "e0"), mk_effect(it, loader, "NOP", "e1")]
                 if form == "if":
@@ -391,7 +393,18 @@ def gen_stmt_callbacks(loader, check, replay_on=True):
                 if not ok:
                     continue
                 st = p.state
-                check.ob("selection_stmt#condition-is-the-if-condition", pi, p.ctx.pc, b.fields["cond"] is st["c"])
+                # the branch is taken iff the C condition is non-zero - for every value of the condition
+                cnode = b.fields["cond"]
+                cden = st["c"].ghost["den"]
+                want_t = cden if st["c"].ghost["sort"] == "bool" else (cden != 0)
+                try:
+                    got_t = ir.truth(cnode)
+                    ok_c = None
+                except ir.NotWF as e_:
+                    got_t, ok_c = None, str(e_)
+                rpc = ("c05.if_cond", lambda mdl, ck=ck, ct=ct: {"kind": ck, "ct": list(ct), "c": mdl.get("c", 0)}) if replay_on else None
+                check.ob("selection_stmt#then-arm-taken-iff-the-condition-is-non-zero", pi, p.ctx.pc, (got_t == want_t) if got_t is not None else False,
+                         replay=rpc, detail=ok_c or "")
                 check.ob("selection_stmt#then-arm-is-the-then-statements-in-order", pi, p.ctx.pc, is_seq_of(b.fields["then"], st["then"]))
                 if form == "if":
                     check.ob("selection_stmt#no-else-means-EMPTY", pi, p.ctx.pc, isinstance(b.fields["otherwise"], Obj) and b.fields["otherwise"].cls is Emp)
@@ -747,7 +760,8 @@ def gen_chained(loader, check, replay_on=True):
                     want = c11.conv(c11.conv(st["x"].ghost["den"], (True, 32), tb[1]), tb, ta[1])
                     src = outer.fields["src"]
                     if not ir.wf_problems(src) and ir.sort(src) == ("bv", ta[1]):
-                        check.ob(f"{name}#a-gets-the-converted-value-of-b", pi, p.ctx.pc, ir.den(src) == want)
+                        rpc = ("c05.chained_conv", lambda mdl, ta=ta, tb=tb: {"ta": list(ta), "tb": list(tb), "x": int(mdl.get("x", 0))}) if replay_on else None
+                        check.ob(f"{name}#a-gets-the-converted-value-of-b", pi, p.ctx.pc, ir.den(src) == want, replay=rpc)
                     # order: if the assignment to a runs first and x reads a, b is computed from the *updated* a
                     a_first = first.fields["dest"] is st["a"]
                     rp = ("c05.chained", lambda mdl: {}) if replay_on else None
@@ -810,6 +824,24 @@ def replay_assign(a):
     return got != want, f"{desc}: IR stores {got:#x}, C11 stores {want:#x}"
 
 
+@replay.register("c05.chained_conv")
+def replay_chained_conv(a):
+    from rzilcompiler.Transformer.RZILTransformer import RZILTransformer
+    from rzilcompiler.Transformer.ValueType import ValueType
+    from rzilcompiler.Transformer.Pures.Variable import Variable
+    from rzilcompiler.ArchEnum import ArchEnum
+    t = RZILTransformer(ArchEnum.HEXAGON)
+    ta, tb = tuple(a["ta"]), tuple(a["tb"])
+    va, vb, vx = t.add_op(Variable("a", ValueType(*ta))), t.add_op(Variable("b", ValueType(*tb))), t.add_op(Variable("x", ValueType(True, 32)))
+    inner = t.assignment_expr([vb, Token("ASSIGN_OP", "="), vx])
+    seq = t.assignment_expr([va, Token("ASSIGN_OP", "="), inner])
+    outer = [e for e in seq.effects if e.dest is va][0]
+    got = _concrete_den(outer.src, {("x", 32): a["x"]})
+    xb = z3.BitVecVal(a["x"], 32)
+    want = z3.simplify(c11.conv(c11.conv(xb, (True, 32), tb[1]), tb, ta[1])).as_long()
+    return got != want, f"a:{tname(ta)} = b:{tname(tb)} = x with x = {a['x']:#x}: a receives {got:#x}, C11: the value of b converted to a's type = {want:#x}"
+
+
 @replay.register("c05.chained")
 def replay_chained(a):
     c = irkit.real_compiler()
@@ -823,6 +855,24 @@ def replay_chained(a):
     order = seq[0][seq[0].index("SEQN"):]
     a_first = order.index(va) < order.index(vb)
     return a_first, f"a = b = a + 1 compiles to {order} with {va}: SETL(a, a+1) and {vb}: SETL(b, a+1): the assignment to a runs first, so b receives a+2 (C: a+1)"
+
+
+@replay.register("c05.if_cond")
+def replay_if_cond(a):
+    from rzilcompiler.Transformer.RZILTransformer import RZILTransformer
+    from rzilcompiler.Transformer.Effects.NOP import NOP
+    from rzilcompiler.ArchEnum import ArchEnum
+    t = RZILTransformer(ArchEnum.HEXAGON)
+    ct = tuple(a["ct"])
+    c = _real_operand(a["kind"], ct, "c")
+    br = t.selection_stmt([Token("IF", "if"), c, NOP("t")])
+    v = a["c"]
+    vals = {("c_nz", 8): 1 if v else 0, ("c_z", 8): 0} if a["kind"] in irkit.BOOL_KINDS else {("c", ct[1]): int(v)}
+    d = ir.truth(br.cond)
+    subs = [(z3.BitVec(n, w), z3.BitVecVal(x, w)) for (n, w), x in vals.items()]
+    got = z3.is_true(z3.simplify(z3.substitute(d, *subs)))
+    want = bool(v)
+    return got != want, f"if (c) with c:{tname(ct)} = {int(v):#x}: branch condition {br.cond} is {got}, C truth {want}"
 
 
 @replay.register("c05.effect_text")
